@@ -23,11 +23,12 @@ LEVEL_TEXT = ('Exact integer TLA+ model of rhumb lines on a sphere lattice (meri
               'every lattice vector is replayed on the real Rhumb/RhumbLine (series and exact, sphere and ellipsoids) and validated by '
               'TLC; the laws of the property (defining expressions as end-point misses, shortest east-going course, direct o inverse, '
               'exchange, additivity, line == direct, pole NaN contract, series == exact, cross-class) are validated by TLC on seeded '
-              'random records over 22 ellipsoid configurations with the documented round-off-level bound (30 nm at WGS84 scale).')
+              'random records over 22 ellipsoid configurations with the documented round-off-level bound (15 nm at WGS84 scale plus 8 ulp of the '
+              'length of the course).')
 DESIGN_REF = 'DESIGN.md section 4, C09'
 LEVEL_NOTE = ('Trusted: TLC, RhumbLattice.tla, the long-double textbook formulas and adaptive Gauss-Legendre quadrature of drv_rhumb.cpp '
-              '(meridian arc, isometric latitude, authalic latitude). Off the lattice the spec is relational: a change below 30 nm x '
-              'max(a,b)/a_WGS84 x max(a/b,b/a) (x8 for the series variant at 1/150 < |f| <= 0.01, which the documentation only calls '
+              '(meridian arc, isometric latitude, authalic latitude). Off the lattice the spec is relational: a change below (15 nm x '
+              'max(a,b)/a_WGS84 + 8 ulp of the course length) x max(a/b,b/a) (x4 for the series variant at 1/150 < |f| <= 0.01, which the documentation only calls '
               '"close to full accuracy") is not a violation. Two accuracy defects of the exact variant found on the unchanged tree are '
               'matched structurally as known findings (prolate ellipsoids within 10 degrees of the equator; f >= 0.9), as is the '
               'west-going tie for lon2 - lon1 = -180; see notes/C09.md.')
@@ -58,7 +59,7 @@ def run(ctx):
     base = ('INIT Init\nNEXT Next\nCONSTANTS Part = "%s" NChunks = 32 Dense = %s\n'
             'INVARIANTS LiInv LdInv Emit\nCHECK_DEADLOCK FALSE\n')
     parts = [(p, base % (p, 'TRUE' if dense else 'FALSE')) for p in ('li', 'ld')]
-    nrec = 36000 if ctx.quick else 1200000
+    nrec = 30000 if ctx.quick else 400000
     rows, traces = vlib.lattice_pipeline(ctx, 'MC_Rhumb', parts, to_rows(dense), 'drv_rhumb', ['replay'],
                                          ['record', ctx.seed, nrec], 'Trace_Rhumb',
                                          flavour_record=None if ctx.quick else 'san', min_vectors=1000)
